@@ -421,15 +421,18 @@ func (r *runner) locks() {
 			m := refMedian(ts, h)
 			for d := -1; d <= 1; d++ {
 				pol := types.PolicyAfter(m.Add(time.Duration(d) * time.Second))
+				// only the whole seconds of the lock time are part of a policy (address, encoding): next to a half-second
+				// median the lock "median + d s" held in memory IS the lock floor(median) + d s
+				open := m.After(time.Unix(m.Add(time.Duration(d)*time.Second).Unix(), 0))
 				if p, ok := findSC(w, pol.Address(), 0); ok {
 					t := types.V2Transaction{SiacoinInputs: []types.V2SiacoinInput{{Parent: p.Copy(), SatisfiedPolicy: types.SatisfiedPolicy{Policy: pol}}},
 						SiacoinOutputs: []types.SiacoinOutput{{Value: p.SiacoinOutput.Value, Address: k.Addr(chain.AddrV2)}}}
-					r.probe(w, "v2 after(t) policy (median of last 11 timestamps, strict)", 0, int64(d), chain.Use{Name: "after", V2: &t}, d < 0)
+					r.probe(w, "v2 after(t) policy (median of last 11 timestamps, strict)", 0, int64(d), chain.Use{Name: "after", V2: &t}, open)
 				}
 				if p, ok := findSF(w, pol.Address()); ok {
 					t := types.V2Transaction{SiafundInputs: []types.V2SiafundInput{{Parent: p.Copy(), ClaimAddress: k.Addr(chain.AddrV2), SatisfiedPolicy: types.SatisfiedPolicy{Policy: pol}}},
 						SiafundOutputs: []types.SiafundOutput{{Value: p.SiafundOutput.Value, Address: k.Addr(chain.AddrV2)}}}
-					r.probe(w, "v2 after(t) policy on a siafund input (median of last 11 timestamps, strict)", 0, int64(d), chain.Use{Name: "after-sf", V2: &t}, d < 0)
+					r.probe(w, "v2 after(t) policy on a siafund input (median of last 11 timestamps, strict)", 0, int64(d), chain.Use{Name: "after-sf", V2: &t}, open)
 				}
 				// with an even number of ancestors the median is a midpoint and may fall on a half second: the lock times
 				// that can be written down are whole seconds, so the whole seconds next to such a median are probed too
@@ -542,6 +545,13 @@ func (r *runner) maturity() {
 			if acts[(int(h)+i)%len(acts)].Do(bc) {
 				break
 			}
+		}
+		// in addition, a longer-lived v2 contract is formed now and then and renewed with a partial rollover as soon as
+		// that is possible: the final outputs of a renewal are delayed outputs too
+		if h%4 == 1 {
+			chain.V2Form(4, 2, 100).Do(bc)
+		} else if chain.V2Renew("partial").Do(bc) {
+			r.c.Count("maturity_history_renewals", 1)
 		}
 		addr := k.Addr([]int{chain.AddrV1, chain.AddrV2}[h%2])
 		// in-block: every output the creating transactions of THIS block produce, spent by a later transaction of the
@@ -889,6 +899,7 @@ func run(c *vf.Ctx) {
 		"v2 revision not after proof height", "v2 proof only once the block at proof height is an ancestor", "v2 expiration only after expiration height", "v2 renewal new contract proof height >= height"} {
 		need = append(need, "rule_accept:"+rule, "rule_reject:"+rule)
 	}
+	need = append(need, "maturity_history_renewals")
 	c.RequireFeature(need...)
 	c.Sample(probeCase{Net: ns[0], Rule: "v2 above(h) policy (parent height)", Bound: 5, Height: 6, Want: true, Seed: c.Seed})
 	c.Assume("renewal timing relative to the OLD contract and v1 proofs in the very block in which the window ends are not asserted (the statement does not determine them)")
